@@ -54,6 +54,83 @@ theorem arguments_left_to_right (fns : List FnDef) (n : Nat) (env : Env) (e : Ex
   rename_i p
   cases (evalArgs fns n p.1 es).out <;> simp [pure_eq, R.ok]
 
+/-- Record fields, enum-constructor arguments and list elements (`evalInts`): the first one
+    WRITTEN first, the rest in the environment it left behind and only if it ended normally. -/
+theorem payloads_left_to_right (fns : List FnDef) (n : Nat) (env : Env) (e : Expr) (es : Exprs) :
+    (evalInts fns (n + 1) env (.cons e es)).tr
+      = (evalExpr fns n env e).tr
+        ++ (evalExpr fns n env e).after (fun p => match p.2 with
+            | .int _ => (evalInts fns n p.1 es).tr
+            | _ => []) := by
+  simp only [evalInts, bind_eq, R.bind_tr]
+  congr 1
+  unfold R.after
+  cases (evalExpr fns n env e).out <;> simp
+  rename_i p
+  cases p.2 <;> simp [R.stuck, R.bind_tr]
+  unfold R.after
+  rename_i x
+  cases (evalInts fns n p.1 es).out <;> simp [pure_eq, R.ok]
+
+/-- **A record literal runs its field expressions in the order in which they are written**:
+    its calls are those of the field expressions taken left to right as the literal lists
+    them, whatever `perm` says about where those fields sit in the record type (declaration
+    order, alphabetical order, … play no part). -/
+theorem record_fields_as_written (fns : List FnDef) (n : Nat) (env : Env) (perm : List Nat) (fs : Exprs) :
+    (evalExpr fns (n + 1) env (.record perm fs)).tr = (evalInts fns n env fs).tr := by
+  simp only [evalExpr, bind_eq, R.bind_tr]
+  unfold R.after
+  cases (evalInts fns n env fs).out <;> simp
+  rename_i p
+  by_cases h : permOk perm p.2.length = true <;> simp [h, pure_eq, R.ok, R.stuck]
+
+/-- … and the value it builds when the fields have run: the record whose fields are the
+    values `arrange`d by name. -/
+theorem record_value (fns : List FnDef) (n : Nat) (env env' : Env) (perm : List Nat) (fs : Exprs)
+    (t : Trace) (xs : List Int) (h : (evalInts fns n env fs).yields t (env', xs)) (hp : permOk perm xs.length = true) :
+    (evalExpr fns (n + 1) env (.record perm fs)).yields t (env', .recd (arrange perm xs)) := by
+  simp only [evalExpr, bind_eq, R.bind_yields h, hp]
+  simp [pure_eq, R.ok, R.yields]
+
+theorem arrangeFrom_length : ∀ (perm : List Nat) (xs cur : List Int), (arrangeFrom cur perm xs).length = cur.length
+  | [], _, _ => by simp [arrangeFrom]
+  | _ :: _, [], _ => by simp [arrangeFrom]
+  | p :: ps, x :: xs, cur => by simp [arrangeFrom, arrangeFrom_length ps xs]
+
+theorem arrangeFrom_other : ∀ (perm : List Nat) (xs cur : List Int) (q : Nat), q ∉ perm →
+    (arrangeFrom cur perm xs)[q]? = cur[q]?
+  | [], _, _, _, _ => by simp [arrangeFrom]
+  | _ :: _, [], _, _, _ => by simp [arrangeFrom]
+  | p :: ps, x :: xs, cur, q, h => by
+    simp only [List.mem_cons, not_or] at h
+    simp only [arrangeFrom]
+    rw [arrangeFrom_other ps xs _ q h.2, List.getElem?_set_ne (fun e => h.1 e.symm)]
+
+theorem arrangeFrom_get : ∀ (perm : List Nat) (xs cur : List Int) (i : Nat), perm.Nodup → (∀ p ∈ perm, p < cur.length) →
+    perm.length = xs.length → ∀ (hi : i < perm.length), (arrangeFrom cur perm xs)[perm[i]]? = xs[i]?
+  | [], _, _, _, _, _, _, hi => by simp at hi
+  | _ :: _, [], _, _, _, _, hl, _ => by simp at hl
+  | p :: ps, x :: xs, cur, 0, hn, hlt, _, _ => by
+    simp only [List.nodup_cons] at hn
+    simp only [arrangeFrom, List.getElem_cons_zero, List.getElem?_cons_zero]
+    rw [arrangeFrom_other ps xs _ p hn.1]
+    simp [hlt p (by simp)]
+  | p :: ps, x :: xs, cur, i + 1, hn, hlt, hl, hi => by
+    simp only [List.nodup_cons] at hn
+    simp only [arrangeFrom, List.getElem_cons_succ, List.getElem?_cons_succ]
+    exact arrangeFrom_get ps xs _ i hn.2 (fun q hq => by simpa using hlt q (by simp [hq])) (by simpa using hl) (by simpa using hi)
+
+/-- **Every value lands in the field it was written for**: in the record a well-formed literal
+    builds, the field at position `perm[i]` of the type holds the value of the i-th expression
+    as written; and the record has exactly the type's fields. -/
+theorem record_field_holds_its_value (perm : List Nat) (xs : List Int) (hp : permOk perm xs.length = true)
+    (i : Nat) (hi : i < perm.length) :
+    (arrange perm xs)[perm[i]]? = xs[i]? ∧ (arrange perm xs).length = xs.length := by
+  simp only [permOk, Bool.and_eq_true, List.all_eq_true, decide_eq_true_eq] at hp
+  obtain ⟨⟨hl, hlt⟩, hn⟩ := hp
+  refine ⟨arrangeFrom_get perm xs _ i hn (fun p hp' => by simpa using hlt p hp') hl hi, ?_⟩
+  simp [arrange, arrangeFrom_length]
+
 /-- A host call (function or method) happens after all of its arguments —
     receiver first — have been evaluated, exactly once, with their values. -/
 theorem call_after_arguments (fns : List FnDef) (n : Nat) (env env' : Env) (f : Nat) (args : Exprs)
@@ -172,6 +249,28 @@ theorem compound_assignment_reads_target_first (fns : List FnDef) (n : Nat) (env
   simp only [evalExpr, hop, hx, bind_eq, R.bind_yields h, hv, hu]
   simp [R.yields, pure_eq, R.ok]
 
+/-- The same when the target is a field of a record variable (`x.f op= e`): the field is
+    read before the right-hand side runs — the stored value is `old x.f op rhs` even when the
+    right-hand side assigns `x.f`, or `x` as a whole — and it is stored into the record `x`
+    holds after the right-hand side ran. -/
+theorem compound_assignment_to_field_reads_target_first (fns : List FnDef) (n : Nat) (env env' env'' : Env)
+    (op : BinOp) (x i : Nat) (e : Expr) (t : Trace) (a k : Int) (b : Val)
+    (hop : op.isArith = true) (hx : getField env x i = some a)
+    (h : (evalExpr fns n env e).yields t (env', b))
+    (hv : binop op (.int a) b = some (.int k)) (hu : setField env' x i k = some env'') :
+    (evalExpr fns (n + 1) env (.cassignF op x i e)).yields t (env'', .unit) := by
+  simp only [evalExpr, hop, hx, bind_eq, R.bind_yields h, hv, hu]
+  simp [R.yields, pure_eq, R.ok]
+
+/-- An assignment to a field evaluates its right-hand side, then replaces that field of the
+    record the variable holds at that point; it makes no call of its own. -/
+theorem field_assignment_after_rhs (fns : List FnDef) (n : Nat) (env env' env'' : Env)
+    (x i : Nat) (e : Expr) (t : Trace) (k : Int)
+    (h : (evalExpr fns n env e).yields t (env', .int k)) (hu : setField env' x i k = some env'') :
+    (evalExpr fns (n + 1) env (.assignF x i e)).yields t (env'', .unit) := by
+  simp only [evalExpr, bind_eq, R.bind_yields h, hu]
+  simp [R.yields, pure_eq, R.ok]
+
 /-- `match`: the arms are tried top to bottom. An arm whose pattern is not the
     value's variant is skipped *without evaluating its guard*. -/
 theorem guard_of_unmatched_pattern_not_run (fns : List FnDef) (n : Nat) (env : Env) (v : Val)
@@ -282,7 +381,9 @@ theorem run_fuel_independent (fns : List FnDef) (args : List Val) (fuel fuel' : 
   expression statements, assignment, compound assignment, `while` and `for`
   (any number of iterations), `return`, `accept`/`reject` (the operand stays
   lazy until it is stored in the variant), `Option.Some`/`Option.None`, `?`,
-  enum constructors, record literals, field access (`x.f` is a lazy path read,
+  enum constructors, record literals (fields lowered and stored in the order in
+  which the literal writes them, whatever the order of the record type),
+  field access (`x.f` is a lazy path read,
   `e.f` materialises `e`), list literals, f-strings, string concatenation
   (`desugared_binop`), and `match` (examinee
   materialised once, discriminant switch, one guard chain per discriminant
@@ -291,7 +392,8 @@ theorem run_fuel_independent (fns : List FnDef) (args : List Val) (fuel fuel' : 
   case of its own).
   What keeps the `_partial`: `lowerE` is undefined (and the theorem silent)
   exactly for a `match` whose patterns name a variant the examinee's type does
-  not have and for a compound assignment with a comparison operator (both
+  not have, for a compound assignment with a comparison operator and for a
+  record literal that does not name every field of its type exactly once (all
   ill-typed; `lowerProg_defined`);
   the model leaves out `drop` instructions and the `stack_slots` bookkeeping
   (no effect on host calls); lists are shared handles and the model has no
@@ -301,9 +403,10 @@ theorem run_fuel_independent (fns : List FnDef) (args : List Val) (fuel fuel' : 
   proved function. -/
 
 open RotoV.LowerS in
-/-- **The fragment is the whole core language** minus two ill-typed shapes: if no
-    function body contains a compound assignment with a comparison operator or
-    a `match` pattern naming a variant the examinee's type does not have
+/-- **The fragment is the whole core language** minus three ill-typed shapes: if no
+    function body contains a compound assignment with a comparison operator,
+    a `match` pattern naming a variant the examinee's type does not have, or a
+    record literal that does not name every field of its type exactly once
     (`shapedB`), the lowering model is defined on the whole program — so the
     hypothesis `lowerProg fns = some P` of the theorems below is met. -/
 theorem lowerProg_defined (fns : List FnDef) (h : ∀ fd ∈ fns, shapedB fd.body = true) :
@@ -445,6 +548,13 @@ example : (evalExpr [] 9 [] (.host 5 (.cons (emitI 1 7) (.cons (emitI 2 0) (.con
     = [⟨0, [.int 1, .int 7]⟩, ⟨0, [.int 2, .int 0]⟩, ⟨0, [.int 3, .int 5]⟩, ⟨5, [.int 7, .int 0, .int 5]⟩] := by decide
 -- no_call_after_leaving_argument: `emit3(1, return 4, emit(2, 5))`
 example : (evalArgs [] 9 [] (.cons (.lit (.int 1)) (.cons (.ret (.lit (.int 4))) (.cons (emitI 2 5) .nil)))).leaves [] (.int 4) := by decide
+-- non-vacuity: `R { a: emit(1, 7), b: emit(2, 5), c: emit(3, 9) }` written as `c, a, b`
+-- (positions 2, 0, 1): the calls are 1, 2, 3 and the record is `{7→c, 5→a, 9→b}` = [5, 9, 7]
+example : (evalExpr [] 9 [] (.record [2, 0, 1] (.cons (emitI 1 7) (.cons (emitI 2 5) (.cons (emitI 3 9) .nil))))).yields
+    [⟨0, [.int 1, .int 7]⟩, ⟨0, [.int 2, .int 5]⟩, ⟨0, [.int 3, .int 9]⟩] ([], .recd [5, 9, 7]) := by decide
+example : (evalInts [] 9 [] (.cons (emitI 1 7) (.cons (emitI 2 5) .nil))).tr = [⟨0, [.int 1, .int 7]⟩, ⟨0, [.int 2, .int 5]⟩] := by decide
+example : permOk [2, 0, 1] 3 = true ∧ permOk [0, 0, 1] 3 = false ∧ permOk [0, 1] 3 = false ∧ permOk [0, 1, 3] 3 = false := by decide
+example : arrange [2, 0, 1] [7, 5, 9] = [5, 9, 7] := by decide
 -- and_skips / and_continues / or_skips / or_continues
 example : (evalExpr [] 9 [] (emitB 1 false)).yields [⟨1, [.int 1, .bool false]⟩] ([], .bool false) := by decide
 example : (evalExpr [] 9 [] (.and (emitB 1 false) (emitB 2 true))).tr = [⟨1, [.int 1, .bool false]⟩] := by decide
@@ -512,6 +622,19 @@ def demoFn2 : FnDef :=
 example : (lowerFn demoFn2).isSome = true := by decide
 example : bodyValue (evalBlock [] 40 [(0, .int 5)] demoFn2.body).out = some (.int 1) := by decide
 example : ((evalBlock [] 40 [(0, .int 5)] demoFn2.body).tr).length = 4 := by decide
+-- `x0.c += { x0.c = 100; emit(1, 1) }` on `x0 = {b: 1, c: 2, a: 3}`: the old `c` (2) is read first → c = 3;
+-- `x0.b -= { x0 = {b: 7, c: 8, a: 9}; 1 }`: old `b` (1) minus 1, stored into the NEW record → {0, 8, 9}
+example : (evalExpr [] 9 [(0, .recd [1, 2, 3])] (.cassignF .add 0 1 (.block (.stmt (.assignF 0 1 (.lit (.int 100))) (.last (emitI 1 1)))))).yields
+    [⟨0, [.int 1, .int 1]⟩] ([(0, .recd [1, 3, 3])], .unit) := by decide
+example : (evalExpr [] 20 [(0, .recd [1, 2, 3])] (.cassignF .sub 0 0 (.block (.stmt (.assign 0 (.record [0, 1, 2] (.cons (.lit (.int 7)) (.cons (.lit (.int 8)) (.cons (.lit (.int 9)) .nil))))) (.last (.lit (.int 1))))))).yields
+    [] ([(0, .recd [0, 8, 9])], .unit) := by decide
+example : (evalExpr [] 9 [(0, .recd [1, 2, 3])] (.assignF 0 2 (emitI 1 5))).yields [⟨0, [.int 1, .int 5]⟩] ([(0, .recd [1, 2, 5])], .unit) := by decide
+def demoFnF : FnDef :=
+  ⟨[0], .let_ 1 (.record [1, 0, 2] (.cons (.var 0) (.cons (.lit (.int 2)) (.cons (.lit (.int 3)) .nil))))
+    (.stmt (.cassignF .add 1 1 (.block (.stmt (.assignF 1 1 (.lit (.int 100))) (.last (emitI 1 1)))))
+    (.last (.field (.var 1) 1)))⟩
+example : (lowerFn demoFnF).isSome = true := by decide
+example : bodyValue (evalBlock [] 40 [(0, .int 4)] demoFnF.body).out = some (.int 5) := by decide
 -- … with `?`, `Some`, `accept`/`reject`: `{ let x1 = emit_o(1, x0)?; if emit_b(2, x1 == 4) { reject emit(3, x1); }; accept emit(4, x1) }`
 def demoFn3 : FnDef :=
   ⟨[0], .let_ 1 (.try (.host 4 (.cons (.lit (.int 1)) (.cons (.var 0) .nil))))
@@ -522,10 +645,11 @@ example : (lowerFn demoFn3).isSome = true := by decide
 example : bodyValue (evalBlock [] 40 [(0, .int 4)] demoFn3.body).out = some (.verdict false 4) := by decide
 example : bodyValue (evalBlock [] 40 [(0, .int 6)] demoFn3.body).out = some (.verdict true 6) := by decide
 example : bodyValue (evalBlock [] 40 [(0, .int 3)] demoFn3.body).out = some (.opt none) := by decide
--- … record fields left to right: `(R { a: emit(1, x0), b: { x0 = 9; emit(2, x0) } }).a`
+-- … record fields in the order in which they are written, here not the order of the type
+-- (`record R { b, c, a }`): `(R { c: emit(1, x0), b: { x0 = 9; emit(2, x0) } , a: x0 }).c`
 def demoFn4 : FnDef :=
-  ⟨[0], .last (.field (.record (.cons (.host 0 (.cons (.lit (.int 1)) (.cons (.var 0) .nil)))
-      (.cons (.block (.stmt (.assign 0 (.lit (.int 9))) (.last (.host 0 (.cons (.lit (.int 2)) (.cons (.var 0) .nil)))))) .nil))) 0)⟩
+  ⟨[0], .last (.field (.record [1, 0, 2] (.cons (.host 0 (.cons (.lit (.int 1)) (.cons (.var 0) .nil)))
+      (.cons (.block (.stmt (.assign 0 (.lit (.int 9))) (.last (.host 0 (.cons (.lit (.int 2)) (.cons (.var 0) .nil)))))) (.cons (.var 0) .nil)))) 1)⟩
 example : (lowerFn demoFn4).isSome = true := by decide
 example : bodyValue (evalBlock [] 40 [(0, .int 4)] demoFn4.body).out = some (.int 4) := by decide
 example : (evalBlock [] 40 [(0, .int 4)] demoFn4.body).tr = [⟨0, [.int 1, .int 4]⟩, ⟨0, [.int 2, .int 9]⟩] := by decide
